@@ -94,6 +94,7 @@ type State struct {
 	opaqueSeq int
 	reachSeen map[string]bool
 	pinned    map[int]uint64
+	btrace    []string
 }
 
 func (s *State) clone(newID int) *State {
@@ -142,6 +143,9 @@ func (s *State) clone(newID int) *State {
 		for k, v := range s.pinned {
 			c.pinned[k] = v
 		}
+	}
+	if s.btrace != nil {
+		c.btrace = append([]string(nil), s.btrace...)
 	}
 	c.reachSeen = make(map[string]bool, len(s.reachSeen))
 	for k, v := range s.reachSeen {
